@@ -4809,8 +4809,11 @@ fn name_change(original: &str) -> String {
                 let num_start = paren_pos + 2; // Skip " ("
                                                // Try to parse the number between parentheses
                 if let Ok(number) = first_part[num_start..absolute_end_pos].parse::<u32>() {
-                    let base_name = &first_part[..paren_pos];
-                    new_name = format!("{} ({})", base_name, number + 1)
+                    // At `u32::MAX` keep the default: append a fresh ` (2)`.
+                    if let Some(next) = number.checked_add(1) {
+                        let base_name = &first_part[..paren_pos];
+                        new_name = format!("{} ({})", base_name, next)
+                    }
                 }
             }
         }
@@ -4839,8 +4842,11 @@ fn hostname_change(original: &str) -> String {
     if let Some(hyphen_pos) = first_part.rfind('-') {
         // Try to parse everything after the hyphen as a number
         if let Ok(number) = first_part[hyphen_pos + 1..].parse::<u32>() {
-            let base_name = &first_part[..hyphen_pos];
-            new_name = format!("{}-{}", base_name, number + 1);
+            // At `u32::MAX` keep the default: append a fresh `-2`.
+            if let Some(next) = number.checked_add(1) {
+                let base_name = &first_part[..hyphen_pos];
+                new_name = format!("{}-{}", base_name, next);
+            }
         }
     }
 
